@@ -508,7 +508,7 @@ macro_rules! for_n {
 
 pub fn run(which: &str, tier: Tier, rep: &mut Report) -> (String, String) {
     let maxn = tier.pick(4, 5, if miri_deep() { 3 } else { 2 });
-    let extra = tier.pick(4, 5, if miri_deep() { 3 } else { 1 });
+    let extra = tier.pick(4, 5, if miri_deep() { 2 } else { 0 });
     // jobs: (kind, N, first op index) to spread the top-level branches over threads
     let mut jobs: Vec<(u8, usize, usize)> = Vec::new();
     for n in 0..=maxn {
